@@ -298,6 +298,58 @@ def classify(fn, loop):
             if _on_every_cycle(cfg, loop, bid) and _readb(cfg, du, loop, t, bid):
                 loop.form, loop.why = "readb", "exits when the line read into a fresh buffer is empty (end of input)"
                 return
+    # ---- shrinking container: `while v.last() == Some(..) { v.pop(); }`, `while let Some(x) = v.pop()`, `while !v.is_empty() { v.pop() }` ----
+    for bid in sorted(loop.body):
+        t = cfg.blocks[bid]["term"]
+        if t["k"] != "call":
+            continue
+        name = callee_name(t) or ""
+        if not (name.endswith(("Vec::<T, A>::pop", "String::pop", "VecDeque::<T, A>::pop_front", "VecDeque::<T, A>::pop_back")) and t["args"]):
+            continue
+        if not _on_every_cycle(cfg, loop, bid):
+            continue
+        cv = du.val_operand(t["args"][0])
+        if cv[0] != "ref" or cv[1][1]:
+            continue
+        C = cv[1][0]
+        # (a) the None of the pop itself leaves the loop
+        root, inv = optres_root(du, place_key(t["dest"]))
+        for e, f in facts:
+            if f[0] == "variant" and f[1] == root and f[3] is (True if inv else False) and e[0] in loop.body and _edge_leaves(cfg, loop, e):
+                loop.form, loop.why = "shrink", "exits when pop() returns None; every cycle removes an element"
+                return
+
+        def mentions(v, depth=0):
+            """the condition looks at the container's end / length: last, first, len, is_empty, ends_with"""
+            if depth > 10 or not isinstance(v, tuple):
+                return False
+            if v and v[0] in ("ref", "place") and isinstance(v[1], tuple) and v[1] and isinstance(v[1][0], int) and v[1][0] != C:
+                w = du.val_place((v[1][0], ()))
+                return w != v and w[0] != "place" and mentions(w, depth + 1)
+            if v and v[0] == "call" and v[1] and v[1].endswith(("::last", "::first", "::len", "::is_empty", "::ends_with", "::back", "::front")) and v[2]:
+                a = v[2][0]
+                while a[0] == "call" and a[1] and a[1].endswith(("::deref", "::as_slice", "::as_str", "::as_bytes")) and a[2]:
+                    a = a[2][0]
+                if a[0] == "ref" and a[1][0] == C:
+                    return True
+            return any(mentions(x, depth + 1) for x in v[1:] if isinstance(x, tuple)) or any(mentions(y, depth + 1) for x in v[1:] if isinstance(x, tuple) for y in x if isinstance(y, tuple))
+        # (b) an exit test looks at the end / the length of the container (an empty container has no last element, length 0)
+        for sb in loop.body:
+            st = cfg.blocks[sb]["term"]
+            if st["k"] != "switch":
+                continue
+            if mentions(du.val_operand(st["discr"])) and any(_edge_leaves(cfg, loop, (sb, tb)) for tb in set([x for _, x in st["targets"]] + [st["otherwise"]])):
+                # no other call grows the container inside the loop
+                grows = False
+                for b2 in loop.body:
+                    t2 = cfg.blocks[b2]["term"]
+                    if t2["k"] == "call" and (callee_name(t2) or "").endswith(("::push", "::push_str", "::insert", "::extend", "::append", "::extend_from_slice", "::push_back", "::push_front")) and t2["args"]:
+                        a2 = du.val_operand(t2["args"][0])
+                        if a2[0] == "ref" and a2[1][0] == C:
+                            grows = True
+                if not grows:
+                    loop.form, loop.why = "shrink", "every cycle pops an element of a container that the exit test looks at and nothing in the loop adds to"
+                    return
     # ---- counter ----
     hb = cfg.blocks
     for sb in sorted(loop.body):
